@@ -104,6 +104,14 @@ def failText (contractHasError : Bool) (ety : ErrTy) (hid : String) : String :=
   | true, .std => "CE::Std(Generic error: fail:" ++ hid ++ ")"
   | true, _ => "CE::Custom(fail:" ++ hid ++ ")"
 
+def hexDigit (n : Nat) : Char := if n < 10 then Char.ofNat (48 + n) else Char.ofNat (87 + n)
+
+/-- lower-case hex of the bytes of an ASCII text -/
+def hexText (s : String) : String := String.ofList (s.toList.flatMap fun c => [hexDigit (c.toNat / 16), hexDigit (c.toNat % 16)])
+
+/-- the corpus' migrate handlers answer with this data (the other handlers set none) -/
+def echoData (call : Call) : String := if call.kind = .migrate then hexText ("m:" ++ call.handler) else "-"
+
 def showOutcome (p : Program) : Outcome → String
   | .decodeErr t => "de-" ++ t
   | .ran call m _ =>
@@ -112,6 +120,6 @@ def showOutcome (p : Program) : Outcome → String
       "ok " ++ (Json.obj [("attrs", .arr ((echoAttrs call).map fun (k, v) => .arr [.str k, .str v]))]).render
     else
       "ok " ++ "|".intercalate ((echoAttrs call).map fun (k, v) => k ++ "=" ++ v)
-        ++ " msgs=0 events=0 data=- stored=" ++ call.handler
+        ++ " msgs=0 events=0 data=" ++ echoData call ++ " stored=" ++ call.handler
 
 end Sylvia.Dispatch
